@@ -20,7 +20,7 @@ def nontrivial(sc):
 def run(chk, replay=None):
     chk.assumptions += ["ideal hash functions in the model; the oracle re-hashes with the reference BLAKE3 / hashlib",
                         "edits_visible: every user write of the runner gets a distinct explicit mtime"]
-    return K.drive(chk, replay, "C01", K.gen_c01, K.c01_oracle, nontrivial, n_quick=120, n_thorough=800,
+    return K.drive(chk, replay, "C01", K.gen_c01, K.c01_oracle, nontrivial, n_quick=100, n_thorough=800,
                    rule=("histories = writes of 1-3 paths (nested, no extension, blanks, non-ASCII, dotfile, double extension; contents incl. empty, "
                          "CR/LF mixes, files differing only in line endings, NUL at byte 7999/8000/8001, duplicates), a commit by track or by "
                          "track --no-commit + carry-in, 1-5 later user actions / track / carry-in / recheck commands, then for every path a probe: "
